@@ -196,6 +196,7 @@ impl Report {
         for (k, v) in &self.extra {
             coverage.insert(k.clone(), v.clone());
         }
+        coverage.insert("memory_guard".into(), json!({"limit_bytes_per_library_call": crate::mem::limit_bytes(), "peak_bytes_in_one_library_call": crate::mem::peak_bytes()}));
         let n_real = real.len() as u64;
         let ev = json!({
             "property_id": self.property,
@@ -213,6 +214,9 @@ impl Report {
         std::fs::write(&evpath, serde_json::to_string_pretty(&ev).unwrap()).expect("cannot write evidence");
         if real.is_empty() && crate::choicesat::past_deadline() {
             self.machinery_errors.push("wall-clock budget exhausted before the exploration was complete (CVX_BUDGET_S): no verdict".into());
+        }
+        if real.is_empty() && known_hit.is_empty() && (self.traces == 0 || self.evaluations == 0) {
+            self.machinery_errors.push("vacuous run: nothing was executed / evaluated".into());
         }
         if !self.machinery_errors.is_empty() && real.is_empty() {
             for m in &self.machinery_errors {
